@@ -48,6 +48,12 @@ func c01Run(c *mon.Ctx, aText, bText string, o OptSet) (string, map[string]any) 
 	c.Input("options", o.Name)
 	A, B := ReadJ(aText), ReadJ(bText)
 	b := Plain(B)
+	if c.R.Chance(0.1) && len(o.Keys) == 0 {
+		if P, ok := viaPatch(c.R, b); ok {
+			B = P // the same document as the in-memory result of a Patch
+			c.Feature("b_is_patch_result")
+		}
+	}
 	d := A.Diff(B, o.O()...)
 	hs := Hunks(d)
 	diffFeatures(c, hs)
